@@ -194,6 +194,20 @@ func (s *LinearState) Add(ctx *Context, id string, x Map) (string, error) {
 	s.slock(ctx, false)
 	defer s.sunlock(ctx, false)
 
+	if s.remHook != nil {
+		if previous, have := s.Facts[id]; have && isScheduledRule(previous.M) && !isScheduledRule(m) {
+			// A scheduled rule is being replaced by something that
+			// isn't scheduled, so nothing will replace its schedule:
+			// whoever scheduled it should hear that it's gone.
+			s.withPrivilege(ctx)
+			err := s.remHook(ctx, s, id)
+			s.withoutPrivilege(ctx)
+			if err != nil {
+				return "", err
+			}
+		}
+	}
+
 	pair := &Pair{[]byte(id), bs}
 	if err = s.store.Add(ctx, s.Name, pair); err != nil {
 		return id, err
